@@ -27,6 +27,15 @@ type E2 struct {
 	A int `json:"A"`
 	C *int
 }
+
+// E3: names that only differ in case from names the generator gives to outer fields (Ab, AB,
+// K/k, S/s): a member name matching none exactly has candidates at two embedding depths.
+type E3 struct {
+	AB int
+	Ab string `json:"aB"`
+	K  int    `json:"k"`
+	S  []int  `json:"s"`
+}
 type e3 struct{ X, Y int }
 type pe3 struct {
 	P int
@@ -202,25 +211,25 @@ type Shadow struct {
 	Cc int `json:"C"`
 }
 type StrOpts struct {
-	I   int      `json:"i,string"`
-	U8  uint8    `json:"u8,string"`
-	F   float64  `json:"f,string"`
-	F32 float32  `json:"f32,string"`
-	B   bool     `json:"b,string"`
-	S   string   `json:"s,string"`
-	PI  *int     `json:"pi,string"`
-	PS  *string  `json:"ps,string"`
-	PPB **bool   `json:"ppb,string"`
-	NI  NI       `json:"ni,string"`
-	NS  NS       `json:"ns,string"`
-	D   time.Duration `json:"d,string"`
-	Any any      `json:"any,string"`
-	SI  []int    `json:"si,string"`
+	I   int            `json:"i,string"`
+	U8  uint8          `json:"u8,string"`
+	F   float64        `json:"f,string"`
+	F32 float32        `json:"f32,string"`
+	B   bool           `json:"b,string"`
+	S   string         `json:"s,string"`
+	PI  *int           `json:"pi,string"`
+	PS  *string        `json:"ps,string"`
+	PPB **bool         `json:"ppb,string"`
+	NI  NI             `json:"ni,string"`
+	NS  NS             `json:"ns,string"`
+	D   time.Duration  `json:"d,string"`
+	Any any            `json:"any,string"`
+	SI  []int          `json:"si,string"`
 	MI  map[string]int `json:"mi,string"`
-	TM  TM       `json:"tm,string"`
-	PTM *TM      `json:"ptm,string"`
-	PSl *[]int   `json:"psl,string"`
-	PSt *E1      `json:"pst,string"`
+	TM  TM             `json:"tm,string"`
+	PTM *TM            `json:"ptm,string"`
+	PSl *[]int         `json:"psl,string"`
+	PSt *E1            `json:"pst,string"`
 }
 
 type leaf struct {
@@ -286,9 +295,11 @@ func pickLeaf(r *rand.Rand) [2]reflect.Type {
 var keyTypes = [][2]reflect.Type{
 	same[string](), same[string](), same[string](), same[int](), same[int](), same[uint8](), same[int64](), same[int8](), same[uint64](), same[uintptr](),
 	same[NS](), same[NI](), same[TM](), same[TM](), same[TScr](), same[ITM](), same[*PTM](),
+	// text-method key types that have JSON methods as well
+	same[JTM](), same[time.Time](),
 }
 
-var embeds = [][2]reflect.Type{same[E1](), same[E2](), same[*E1](), same[*E2](), same[Shadow]()}
+var embeds = [][2]reflect.Type{same[E1](), same[E2](), same[*E1](), same[*E2](), same[Shadow](), same[E3](), same[E3]()}
 
 var fieldNames = []string{"A", "B", "C", "Ab", "AB", "X", "Name", "A_b", "A_B", "K", "S", "aB", "Xx"}
 var tagNames = []string{"", "", "", "", "a", "b", "A", "c", "-", "x y", "é", "a-b", "a_b", "aB", "a,", "-,", "k", "K", "K", "s", "ſ", "'q'", "a.b", "<&>", "$x", "0"}
